@@ -482,6 +482,7 @@ def run(ctx):
     RS.prove_webvtt_read_skeleton(ctx)    # (cue i has the times and layout of its own timing line; the ordering test sees the previous start)
     RS.prove_microdvd_read_skeleton(ctx)
     RS.prove_sami_read_skeleton(ctx)      # (every declared language translated once and stored under its own code)
+    RS.prove_dfxp_p_skeleton(ctx)         # (a caption has the times and the nodes of its own paragraph, nothing of an earlier one)
     RS.prove_dfxp_read_skeleton(ctx)      # (every paragraph once, under the language of its nearest div, in document order)  # (every cue at the rate in force at its own line; a new document at the default rate)       # (every block's stamps converted once; cue i gets the numbers of block i)
     P("webvtt.microseconds", webvtt_microseconds, functions=[webvtt_mod.microseconds])
     P("webvtt._parse_timestamp", webvtt_stamp, functions=[WebVTTReader._parse_timestamp])
